@@ -24,6 +24,9 @@ type Conn struct {
 	// For preventing races on (dis)connect.
 	mu sync.RWMutex
 
+	// Held by a Connect call until its REGISTER event has been dispatched.
+	regMu sync.Mutex
+
 	// Contains parameters that people can tweak to change client behaviour.
 	cfg *Config
 
@@ -395,6 +398,13 @@ func (conn *Conn) ConnectContext(ctx context.Context) error {
 	// We don't want to hold conn.mu while firing the REGISTER event,
 	// and it's much easier and less error prone to defer the unlock,
 	// so the connect mechanics have been delegated to internalConnect.
+	//
+	// Connects are serialised up to and including their REGISTER event:
+	// if the link drops at once and the client is reconnected (say from a
+	// DISCONNECTED handler) while REGISTER handlers are still sending, their
+	// lines would otherwise end up on the new connection.
+	conn.regMu.Lock()
+	defer conn.regMu.Unlock()
 	err := conn.internalConnect(ctx)
 	if err == nil {
 		conn.dispatch(&Line{Cmd: REGISTER, Time: time.Now()})
